@@ -359,6 +359,47 @@ def r_table_writers(ctx, prog):
                 ctx.fail('R-TABLE-WRITERS', i, 'call:' + name, 'table generator calls %s' % i.callee)
 
 
+def r_accum_init(ctx, prog):
+    """A generator must not build an entry on top of whatever the table held before: a read-modify-write of a table element
+    (`T[c] ^= x`) has to be dominated by a plain store to the same element in the same run.  Otherwise the tables are right only
+    while the static storage is still zero, i.e. on the first call of the (exported) of_rs_init and wrong on any later one."""
+    R = 'R-ACCUM-INIT'
+    ctx.rule(R, 'in the table generators every read-modify-write of a table element is dominated by a plain store to that element '
+             '(the generated contents do not depend on the previous contents)', floor=1)
+    u = [x for x in prog.units if x.name == RS8_UNIT]
+    ctx.need(u, R, 'unit missing')
+    u = u[0]
+    n = 0
+    for name in ('of_generate_gf', 'of_rs_init_mul_table'):
+        f = u.functions.get(name)
+        ctx.need(f is not None, R, 'generator %s missing' % name)
+        tt = Terms(f, forward=False)
+        stores = [i for i in f.all_insts() if i.op == 'store']
+        for i in stores:
+            a = tt.term(i.ops[1])
+            if not any(_mentions_global(a, g) for g in RS8_TABLES):
+                continue
+            v = tt.term(i.ops[0])
+            if not _contains(v, ('load', a)):
+                n += 1
+                continue
+            # self-accumulation
+            init = [j for j in stores if j is not i and tt.term(j.ops[1]) == a and not _contains(tt.term(j.ops[0]), ('load', a))
+                    and f.dominates(j, i)]
+            ctx.instance(R, bool(init), i, 'accumulate:%s' % name,
+                         '%s accumulates into a table element that this run has not set first: the result depends on the previous '
+                         'contents (right only on the first of_rs_init call)' % name)
+    ctx.need(n >= 4, R, 'generator stores not recognised')
+
+
+def _contains(t, sub):
+    if t == sub:
+        return True
+    if not isinstance(t, tuple):
+        return False
+    return any(_contains(x, sub) for x in t[1:] if isinstance(x, tuple))
+
+
 def _first_global(t):
     if not isinstance(t, tuple):
         return None
